@@ -5,7 +5,7 @@
    silently; `Print Assumptions` lists the axioms it depends on (none are declared by this development). *)
 From Coq Require Import NArith List Bool String.
 From Octo Require Import Base.Bytes Crypto.Prims Lib.Framed Lib.Canon Model.Address Model.NonceGen Model.SsChunk Model.SsTcp Model.Trojan Model.Socks5 Model.Http Generated.Params Generated.Shared
-  Proofs.AddressFacts Proofs.NonceFacts Proofs.SsChunkRoundtrip Proofs.SsChunkCanon Proofs.SsTcpSafety Proofs.SsTcpRoundtrip Proofs.CodecLemmas Proofs.TrojanFacts Proofs.Socks5Facts Proofs.HttpFacts.
+  Proofs.AddressFacts Proofs.NonceFacts Proofs.SsChunkRoundtrip Proofs.SsChunkCanon Proofs.SsTcpSafety Proofs.SsTcpRoundtrip Proofs.CodecLemmas Proofs.TrojanFacts Proofs.Socks5Facts Proofs.HttpFacts Model.Vmess Proofs.VmessSafety Proofs.VmessFacts Model.SsUdp Proofs.SsUdpFacts.
 Import ListNotations.
 Set Printing Width 200.
 
@@ -94,6 +94,28 @@ Definition within_budget (e : string * string * string) : bool :=
 Theorem C07_unsafe_inventory_within_budget : forallb within_budget shared_inventory = true.
 Proof. vm_compute. reflexivity. Qed.
 
+(* VMess server codec (auth id, sealed header, header parse, body in all option masks): never panics, any input *)
+Definition C07_vmess_server := @server_vdecode_no_panic.
+(* VMess client codec (response header, body) *)
+Definition C07_vmess_client := @client_vdecode_no_panic.
+(* VMess body decoder, stream mode, every state *)
+Definition C07_vmess_body_stream := @decode_payload_v_no_panic.
+(* VMess body decoder, packet mode *)
+Definition C07_vmess_body_packet := @decode_packet_v_no_panic.
+(* VMess request header parser on arbitrary authenticated plaintext *)
+Definition C07_vmess_parse_header := @parse_header_no_panic.
+(* Shadowsocks UDP datagram decoder, all kinds and modes *)
+Definition C07_ssudp_decode := @ssu_decode_no_panic.
+(* SessionCodec::decode *)
+Definition C07_ssudp_session_decode := @ssu_session_decode_no_panic.
+
+Check @C07_vmess_server.
+Check @C07_vmess_client.
+Check @C07_vmess_body_stream.
+Check @C07_vmess_body_packet.
+Check @C07_vmess_parse_header.
+Check @C07_ssudp_decode.
+Check @C07_ssudp_session_decode.
 Check @C07_s5_decode.
 Check @C07_s5_try_decode_at.
 Check @C07_vm_read.
@@ -132,3 +154,10 @@ Print Assumptions C07_socks5_command_response.
 Print Assumptions C07_socks5_udp.
 Print Assumptions C07_socks5_udp_progress.
 Print Assumptions C07_http_target.
+Print Assumptions C07_vmess_server.
+Print Assumptions C07_vmess_client.
+Print Assumptions C07_vmess_body_stream.
+Print Assumptions C07_vmess_body_packet.
+Print Assumptions C07_vmess_parse_header.
+Print Assumptions C07_ssudp_decode.
+Print Assumptions C07_ssudp_session_decode.
